@@ -263,6 +263,7 @@ class Cascade:
                     continue
 
             # Process stage
+            completed_result: StageResult | None = None
             try:
                 output_signal = stage.processor(current_signal)
 
@@ -285,10 +286,7 @@ class Cascade:
                     processing_time_ms=(time.time() - stage_start) * 1000
                 )
                 stage_results.append(stage_result)
-
-                if self.on_stage_complete:
-                    self.on_stage_complete(stage_result)
-
+                completed_result = stage_result
                 current_signal = output_signal
 
             except Exception as e:
@@ -330,6 +328,11 @@ class Cascade:
                 elif not stage.required:
                     # Skip non-required stages on failure
                     stage_result.status = StageStatus.SKIPPED
+
+            # Notify the observer outside the processor's try block: an
+            # exception it raises is the caller's, not a failure of the stage
+            if completed_result is not None and self.on_stage_complete:
+                self.on_stage_complete(completed_result)
 
         # Calculate results
         completed_stages = sum(1 for r in stage_results if r.status == StageStatus.COMPLETED)
